@@ -41,7 +41,10 @@ type ClassV struct {
 }
 
 // ExcV - built-in exception value (class 异常)
-type ExcV struct{ Msg string }
+type ExcV struct {
+	Msg       string
+	Synthetic bool // stands for a runtime fault whose message text is not specified
+}
 
 func NewDict() *DictV { return &DictV{M: map[string]Value{}} }
 
@@ -421,8 +424,7 @@ func (in *Interp) handle(c *ctl, catches []Catch, sc *scope, m *modEnv, this Val
 		if cls != "" && catches[i].Class == cls {
 			exc := c.err.Exc
 			if exc == nil {
-				exc = &ExcV{Msg: "<runtime fault: " + c.err.What + ">"}
-				in.unspec("message of a runtime fault")
+				exc = &ExcV{Msg: "<runtime fault: " + c.err.What + ">", Synthetic: true}
 			}
 			fr := &frame{mod: m, this: exc}
 			hs := &scope{vars: map[string]*binding{}, parent: sc}
@@ -762,8 +764,8 @@ func (in *Interp) callBody(params []string, body []Stmt, catches []Catch, args [
 		sc.vars["此"] = &binding{v: this, konst: true}
 	}
 	for i, p := range params {
-		// method inputs: whether they are constants inside the body is not asserted
-		if c := in.declare(sc, p, args[i], false); c != nil {
+		// names bound by 输入 are constants (manual ch.4)
+		if c := in.declare(sc, p, args[i], true); c != nil {
 			return nil, c
 		}
 	}
@@ -1183,6 +1185,9 @@ func (in *Interp) getProp(root Value, name string) (Value, *ctl) {
 		return v, nil
 	case *ExcV:
 		if name == "内容" {
+			if r.Synthetic {
+				in.unspec("message text of a runtime fault")
+			}
 			return r.Msg, nil
 		}
 		return nil, rterr("member")
